@@ -9,6 +9,7 @@
 (3) Profile independence: the MIR of an overflow-checked debug build and of a `-C overflow-checks=off -C debug-assertions=off` build must be
     identical after removing the overflow assertions - no `debug_assert!`, no `cfg!(debug_assertions)`, no profile-dependent code.
 """
+from interp import site_key
 import itertools
 import re
 import collections
@@ -199,7 +200,7 @@ def sweep_function(ctx, prog, path, body, n=None, budget_cells=700):
                     stats['contract_exempt'] += 1
                     continue
             if site:
-                ctx.finding('PANIC', site[0], '%s#%d' % (site[1], site[2]),
+                ctx.finding('PANIC', *site_key(site),
                             '%s at %s: reached with every input of cell %s of %s%s; the operation does not return normally%s'
                             % (out.value, out.where, str(cell).replace(' ', '')[:120], path, (' [N=%d]' % n) if n else '',
                                '' if site[1] == 'explicit' else ' in an overflow-checked build'),
